@@ -92,10 +92,15 @@ impl<T> MemoryStore<T> {
         address: &Multiaddr,
         is_permanent: bool,
     ) -> bool {
+        // `LruCache::entry` may exceed the capacity by one; `insert` evicts down to it.
+        if !self.records.contains_key(peer) {
+            self.records
+                .insert(*peer, PeerRecord::new(self.config.record_capacity));
+        }
         let record = self
             .records
-            .entry(*peer)
-            .or_insert_with(|| PeerRecord::new(self.config.record_capacity));
+            .get_mut(peer)
+            .expect("record was just inserted and the capacity is non-zero");
         let is_new = record.add_address(address, is_permanent);
         if is_new {
             self.push_event_and_wake(Event::PeerAddressAdded {
